@@ -204,13 +204,30 @@ def rebuild(np, bank, w, b, t):
     return full, half
 
 
-def observe(np, bank, i, w):
+ORDERS = [("full", "half", "trunc"), ("half", "full", "trunc"), ("trunc", "half", "full"), ("half", "trunc", "full"),
+          ("full", "trunc", "half"), ("trunc", "full", "half")]
+
+
+def observe(np, bank, i, w, order=0):
+    """The three frequency-domain views of one filter, asked of the SAME bank object in the given order
+    (a bank's answers must not depend on what it was asked before), each asked twice."""
+    got = {}
     with warnings.catch_warnings():
         warnings.simplefilter("ignore")
-        fr = bank.get_frequency_response(i, w)
-        hf = bank.get_frequency_response(i, w, half=True)
-        b, t = bank.get_truncated_response(i, w)
-    return fr, hf, int(b), t
+        for q in ORDERS[order] + ORDERS[order][:1]:
+            if q == "full":
+                r = bank.get_frequency_response(i, w)
+            elif q == "half":
+                r = bank.get_frequency_response(i, w, half=True)
+            else:
+                b, t = bank.get_truncated_response(i, w)
+                r = np.concatenate([[float(b)], np.asarray(t).view(np.float64) if np.iscomplexobj(t) else np.asarray(t, dtype=np.float64)])
+                got["_bt"] = (int(b), t)
+            if q in got and not (r.shape == got[q].shape and np.array_equal(r, got[q])):
+                raise RuntimeError("asking for the %s response twice gives different answers (shapes %s, %s)" % (q, got[q].shape, r.shape))
+            got[q] = r
+    b, t = got["_bt"]
+    return got["full"], got["half"], b, t
 
 
 def oracle(np, eps, bank, kind, i, w, obs=None):
@@ -488,8 +505,10 @@ def _run(ctx):
     bad_impl = []
     for c in cases:
         bank, i, w = c["bank"], c["i"], c["w"]
+        c["order"] = ctx.rng.randrange(len(ORDERS))
+        ctx.count("query-order:" + ">".join(ORDERS[c["order"]]))
         try:
-            c["obs"] = observe(np, bank, i, w)
+            c["obs"] = observe(np, bank, i, w, c["order"])
         except Exception as e:  # noqa: BLE001
             c["obs"] = None
             bad_impl.append((c, [("exception", repr(e))]))
@@ -501,7 +520,7 @@ def _run(ctx):
         ctx.count("width-parity:" + ("odd" if w % 2 else "even"))
 
     def pub(c):
-        return dict(bank=c["desc"], filt_idx=c["i"], width=c["w"])
+        return dict(bank=c["desc"], filt_idx=c["i"], width=c["w"], query_order=list(ORDERS[c.get("order", 0)]))
 
     for c, v in bad_impl[:10]:
         ctx.fail("property violated on the implementation: %s" % (v,), dict(input=pub(c), violated=v), kind="impl")
@@ -885,8 +904,15 @@ def replay(ctx, rp):
         print("no concrete input recorded:", f.get("what"))
         return 1
     bank = make_bank((filters, scales_mod), inp["bank"])
-    v = oracle(np, float(config.EFFECTIVE_SUPPORT_THRESHOLD), bank, inp["bank"]["kind"], inp["filt_idx"], inp["width"])
-    fr, hf, b, t = observe(np, bank, inp["filt_idx"], inp["width"])
+    order = ORDERS.index(tuple(inp["query_order"])) if inp.get("query_order") else 0
+    try:
+        obs = observe(np, bank, inp["filt_idx"], inp["width"], order)
+    except Exception as e:  # noqa: BLE001
+        print("input:", inp)
+        print("property clauses violated on the implementation:", [("exception", repr(e))])
+        return 1
+    v = oracle(np, float(config.EFFECTIVE_SUPPORT_THRESHOLD), bank, inp["bank"]["kind"], inp["filt_idx"], inp["width"], obs)
+    fr, hf, b, t = obs
     print("input:", inp)
     print("truncated: start", b, "length", len(t))
     print("property clauses violated on the implementation:", v)
